@@ -8,6 +8,7 @@ from __future__ import annotations
 
 import itertools
 import multiprocessing as mp
+import os
 
 from . import hostrig, tlc as T
 from .core import Ctx
@@ -58,7 +59,12 @@ def pmap(fn, items, procs=16, chunksize=64):
         return [fn(x) for x in items]
     ctx = mp.get_context("fork")
     with ctx.Pool(procs) as pool:
-        return pool.map(fn, items, chunksize=chunksize)
+        try:
+            # a worker killed by something escaping the code under test must not hang the check
+            return pool.map_async(fn, items, chunksize=chunksize).get(timeout=int(os.environ.get("BV_PMAP_TIMEOUT", "14400")))
+        except mp.TimeoutError:
+            from . import tlc as T
+            raise T.MachineryError("harness workers did not finish in time (a run of the implementation hangs)")
 
 
 def frame_from_tla(v):
